@@ -151,9 +151,12 @@ func checkC02(rd *RunData) []Violation {
 // ---------------- C07 ----------------
 
 func genC07(g *gen, tier string) *Scenario {
+	if g.pct(50) {
+		return genPolicy(g, tier)
+	}
 	sc := &Scenario{Family: "policy-swarm", Sim: g.sim(), Params: map[string]int64{}}
 	sc.Cache = g.cache("plain")
-	sc.Cache.MaxSize = int64(pick(g, 1, 2, 3, 4, 5, 8, 20, 50, 100, 200))
+	sc.Cache.MaxSize = int64(pick(g, 1, 2, 3, 4, 5, 8, 20, 50, 100, 200, 400, 1000))
 	sc.Cache.WriteBuf = pick(g, 1, 4, 16, 128)
 	sc.Cache.Stripes = 1
 	maxCost := sc.Cache.MaxSize
@@ -166,8 +169,31 @@ func genC07(g *gen, tier string) *Scenario {
 		sc.Family = "policy-climber"
 	}
 	keys := int(sc.Cache.MaxSize)*pick(g, 1, 2, 4) + 2
+	if keys > 600 {
+		keys = 600
+	}
+	huge := g.pct(12)
+	if huge {
+		// byte-sized capacities (hundreds of MB to GB) with correspondingly heavy entries: region
+		// arithmetic and the climber's step must stay exact far beyond 2^24
+		sc.Family = "policy-huge-capacity"
+		sc.Cache.MaxSize = pick(g, int64(1)<<28+12345, int64(578875687), int64(1140900076), int64(1)<<31, int64(1)<<32, int64(1)<<33+12345)
+		maxCost = sc.Cache.MaxSize / int64(pick(g, 8, 16, 64))
+		keys = g.rng(12, 60)
+		nops = g.rng(2000, 5000) // several sample periods of the climber (640 policy events each on a small table)
+	}
 	p := mixParams{clients: [2]int{1, 3}, ops: [2]int{nops / 2, nops}, keys: keys, singleWriter: g.pct(50), setPct: pick(g, 20, 50, 80), getPct: pick(g, 20, 50, 80), delPct: 8, sleepPct: 1,
 		ttlPct: pick(g, 0, 0, 10), ttls: []int64{1 * sec, 5 * sec}, costMax: maxCost, sleepMax: 1500 * ms}
+	// now and then an entry about as heavy as the whole cache
+	p.heavyPct = pick(g, 0, 3, 10)
+	p.heavyCosts = []int64{sc.Cache.MaxSize, sc.Cache.MaxSize - 1, sc.Cache.MaxSize/2 + 1}
+	if sc.Cache.MaxSize < 2 {
+		p.heavyPct = 0
+	}
+	if huge {
+		p.clients = [2]int{1, 2}
+		p.getPct = pick(g, 60, 120, 200) // read-heavy: hits are what drives the climber here
+	}
 	sc.Clients = g.mixed(p)
 	if p.singleWriter {
 		sc.Family += ",one-writer-per-key"
